@@ -1,3 +1,3 @@
 SPECIFICATION Spec
-INVARIANTS TypeOK DispatchLoopIsDecl ExactlyOneFate NothingEarly
+INVARIANTS TypeOK DispatchLoopIsDecl ExactlyOneFate NothingEarly OrderSeesValidOnly InvalidNeverOoo OooOnlyWhenOn
 CHECK_DEADLOCK FALSE
